@@ -40,7 +40,7 @@ PROPS = {
 
 PROPS["C11"] = {
     "world": "exec", "level": "exploration", "quick_s": 15, "thorough_s": 420,
-    "rule": "one evaluation = one simulated call of DoUntilQuorum / DoUntilQuorumWithoutSuccessfulContextCancellation / DoMultiUntilQuorum... / legacy ReplicationSet.Do (replication sets, zones, tolerance, minimisation, hedging delay, zone order, terminal predicate, outcomes, completion order, clock advances and cancellation point drawn from the choice vector); non-trivial = a replica answered after the call had returned, or a failure / hedging tick released a held-back request; distinct = distinct released-task/action sequence hash among non-trivial runs",
+    "rule": "one evaluation = one simulated call of DoUntilQuorum / DoUntilQuorumWithoutSuccessfulContextCancellation / DoMultiUntilQuorum... / legacy ReplicationSet.Do (replication sets, zones, tolerance, minimisation, hedging delay, zone order, terminal predicate, outcomes incl. replica errors that wrap context.Canceled, completion order, clock advances, cancellation point, and (multi variant) a slow clean-up function that is itself a scheduling point, all drawn from the choice vector); non-trivial = a replica answered after the call had returned, or a failure / hedging tick released a held-back request; distinct = distinct released-task/action sequence hash among non-trivial runs",
     "real": ["ring.DoUntilQuorum", "ring.DoUntilQuorumWithoutSuccessfulContextCancellation", "ring.DoMultiUntilQuorumWithoutSuccessfulContextCancellation", "ring.ReplicationSet.Do", "default and zone-aware result/context trackers", "hedging ticker (virtual clock)"],
     "stub": ["replicas (call tasks parked; outcome chosen by the scheduler; may answer after their context was cancelled)", "caller context", "zone sorter (harness order) in part of the runs"],
     "assumptions": _ASSUME_COMMON + ["tolerances are in [0, size-1] (degenerate tolerances >= size are excluded: the code documents them as misconfiguration)", "legacy ReplicationSet.Do: only results-from-successes, criterion-at-return, error rule and delayed extra requests are checked (it documents 'all results from f' and has no cleanup hook)"],
@@ -164,7 +164,7 @@ _GOSSIP_STUB = ["hashicorp/memberlist SWIM protocol, membership, TCP transport, 
 _GOSSIP_ASSUME = _ASSUME_COMMON + ["one writer per entry and a new timestamp for every content change (the proviso of C03), instances are not re-registered under the same id within a run", "messages delayed longer than half the tombstone retention are discarded by the simulated network (the statement bounds delays below the retention)", "hashicorp/memberlist itself is stubbed: the properties are decided for dskit's delegate / KV layer under an adversarial network"]
 PROPS["C06"] = {
     "world": "gossip", "level": "exploration", "quick_s": 25, "thorough_s": 600,
-    "rule": "one evaluation = one history of a 2..6 node gossip cluster: writers and partition-ring editors issue CAS on their nodes (interleaved at the read/modify/write point), gossip packets (large and tiny size limits), push/pull exchanges in either direction, per message drop / duplicate / delay / reorder / corrupt (truncated, garbage, empty key, unknown codec, short push/pull frame), partitions and heals, node restarts, watcher registration and cancellation, clock advances; then faults stop and fair gossip rounds plus two full push/pull rounds run: all live nodes must show the same value for every key, acknowledged CAS must be reflected, watchers must hold the final value; scenario 'rebroadcast-only' has no push/pull and no loss (only delay / reorder / duplication, round-robin targets) and must converge by rebroadcast alone; non-trivial = at least one dropped message and one heal/restart before quiescence (cluster) or more than 5 gossip packets (rebroadcast-only); distinct = distinct action sequence hash among non-trivial runs",
+    "rule": "one evaluation = one history of a 2..6 node gossip cluster: writers and partition-ring editors issue CAS on their nodes (state and state-change lock of a partition are written on different nodes) (interleaved at the read/modify/write point), gossip packets (large and tiny size limits), push/pull exchanges in either direction, per message drop / duplicate / delay / reorder / corrupt (truncated, garbage, empty key, unknown codec, short push/pull frame), partitions and heals, node restarts, watcher registration and cancellation, clock advances; then faults stop and fair gossip rounds plus two full push/pull rounds run: all live nodes must show the same value for every key, acknowledged CAS must be reflected, watchers must hold the final value; scenario 'rebroadcast-only' has no push/pull and no loss (only delay / reorder / duplication, round-robin targets) and must converge by rebroadcast alone; non-trivial = at least one dropped message and one heal/restart before quiescence (cluster) or more than 5 gossip packets (rebroadcast-only); distinct = distinct action sequence hash among non-trivial runs",
     "real": _GOSSIP_REAL, "stub": _GOSSIP_STUB, "assumptions": _GOSSIP_ASSUME,
     "level_text": "seeded exploration of message fault sequences and interleavings over the real gossip KV; safety oracles after every step, convergence / reflection / watcher oracles after a stated quiescence budget; sampling, not proof",
     "level_note": "trusted: simulator engine, the harness network, an independent decoder deciding which messages are malformed",
@@ -180,7 +180,7 @@ PROPS["C04"] = {
 }
 PROPS["C05"] = {
     "world": "gossip", "level": "exploration", "quick_s": 25, "thorough_s": 600,
-    "rule": "one evaluation = one gossip-cluster history in which writers deliberately pick overlapping tokens from a 6-value alphabet (0, 1, 2, 7, 2^32-2, 2^32-1), in all states incl. LEAVING, with unsorted / duplicated incoming token lists, interleaved with local CAS; after every step on every node's raw state: no token in two entries that have not left, token lists sorted and duplicate-free; on the merge step that creates a collision the winner rule is evaluated (leaving loses, else smaller id); the state every node shows is fed to ring clients (zone-aware and not) and queried: no ErrInconsistentTokensInfo, no panic; non-trivial = at least one collision was resolved; distinct = distinct action sequence hash among non-trivial runs",
+    "rule": "one evaluation = one gossip-cluster history in which writers deliberately pick overlapping tokens from a 6-value alphabet (0, 1, 2, 7, 2^32-2, 2^32-1), in all states incl. LEAVING, with unsorted / duplicated incoming token lists, interleaved with local CAS (incl. a writer that appends to the token slice the store handed out, as verifyTokens does); after every step on every node's raw state: no token in two entries that have not left, token lists sorted and duplicate-free; on the merge step that creates a collision the winner rule is evaluated (leaving loses, else smaller id); the state every node shows is fed to ring clients (zone-aware and not) and queried: no ErrInconsistentTokensInfo, no panic; non-trivial = at least one collision was resolved; distinct = distinct action sequence hash among non-trivial runs",
     "real": _GOSSIP_REAL, "stub": _GOSSIP_STUB, "assumptions": _GOSSIP_ASSUME + ["the winner rule is evaluated on single-message deliveries (the step that creates the collision), which is the unambiguous reading of 'resolved to the same winner'"],
     "level_text": "seeded exploration of colliding token claims merged in all orders over the real gossip KV; per-step uniqueness invariant and winner rule; sampling, not proof",
     "level_note": "trusted: simulator engine, harness network, the 25-line winner function written from the statement",
